@@ -206,8 +206,12 @@ let san_cases (p:pos) : (string * (int*int*int) option option) list =
           match find (String.length t - 2) with
           | Some i when String.length t > 2 -> Some (String.sub t 0 i ^ bad ^ String.sub t (i+2) (String.length t - i - 2), Some None)
           | _ -> None) (san_spellings p m)) lm in
-  (* a negative text that is an admissible spelling of some legal move is not a negative *)
+  (* castling texts: rejected unless that castling move is legal (then they are spellings) *)
   let spelled = List.map fst pos_cases in
+  (* (the library does not check that a + / # marker is truthful: DESIGN section 8) *)
+  let neg = neg @ List.concat_map (fun (base, variants) -> if List.mem base spelled then [] else List.map (fun s -> (s, Some None)) variants)
+      [("O-O", ["O-O"; "O-O+"]); ("O-O-O", ["O-O-O"; "O-O-O#"])] in
+  (* a negative text that is an admissible spelling of some legal move is not a negative *)
   pos_cases @ List.filter (fun (s, _) -> not (List.mem s spelled)) neg
 
 let sangen (line:string) : unit =
